@@ -4,7 +4,8 @@ import IpcHub.Spec.FlvParse
 /-
 Line protocol of property C08 (one output line per input line):
 
-  mux  <key=value>… f:<mediaType>:<dts ns>:<pts ns>:<payload hex>…
+  mux  <key=value>… f:<mediaType>:<dts ns>:<pts ns>:<payload hex>…      (with join=1: oracle only,
+       Spec.checkJoined on impl= — a client that joined the running stream somewhere)
        keys: cfg=gen|pinned|fixed codec=h264|h265|other w h fr vdr sps pps vps hv hs aac asr ass ach adr asc
              date known impl
        → `model=<same|hex|err> dead=<0|1> app=<0|1> spec=<ok|fail> mspec=<ok|fail>` (same: equal to impl=)
@@ -112,7 +113,7 @@ def okStr (b : Bool) : String := if b then "ok" else "fail"
 /-- the hypotheses of `c08_end_to_end` on the carried frames -/
 def frameOk (f : Frame) : Bool :=
   (f.mediaType = 0 → f.payload ≠ []) && f.payload.length + 9 < 16777216 &&
-  decide (0 ≤ tagTimeMs f ∧ tagTimeMs f < 2147483648) &&
+  decide (-2147483648 ≤ tagTimeMs f ∧ tagTimeMs f < 2147483648) &&
   decide (-8388608 ≤ msOf f.pts - msOf f.dts ∧ msOf f.pts - msOf f.dts < 8388608)
 
 def handleMux (ts : List String) : String :=
@@ -136,6 +137,13 @@ def handleMux (ts : List String) : String :=
       let app := codec ≠ .other && (want.filter (carried src)).all frameOk &&
                  (want = [] || (videoMetaReady vm && sps.length < 65536 && pps.length < 65536 && vps.length < 65536
                     && asc.length + 2 < 16777216 && date.length < 65536))
+      if get kv "join" == some "1" then
+        -- a client that joined the running stream: oracle only (Spec.checkJoined on impl=)
+        let cf := frames.filter (carried src)
+        let japp := codec ≠ .other && src.usable && known = 0 && cf.all frameOk &&
+          cf.all (fun f => cf.all (fun g => decide (tagTimeMs g - tagTimeMs f < 2147483648 ∧ tagTimeMs f - tagTimeMs g ≤ 2147483648)))
+        s!"model=same dead=0 app={boolStr japp} spec={okStr (checkJoined src frames impl)} mspec=ok"
+      else
       match muxBytes (cfgOf kv) vm am date known frames with
       | none => s!"model=err dead=0 app={boolStr app} spec={okStr (checkMux src want impl)} mspec=fail"
       | some (bs, dead) =>
